@@ -83,7 +83,9 @@ def run_tlc(module, cfg, wd, name, env=None, workers=1, timeout=900, mx="6g", ex
     """Run TLC on spec/<module>.tla with spec/<cfg>.  Returns dict with output and parsed lines."""
     meta = os.path.join(wd, "tlc_" + name)
     shutil.rmtree(meta, ignore_errors=True)
-    e = {"JAVA_TOOL_OPTIONS": TLC_JAVA.format(mx=mx, gc=max(2, min(8, workers)))}
+    jtmp = os.path.join(wd, "jtmp_" + name)          # TLC leaves a tlc-* directory in java.io.tmpdir on every run
+    os.makedirs(jtmp, exist_ok=True)
+    e = {"JAVA_TOOL_OPTIONS": TLC_JAVA.format(mx=mx, gc=max(2, min(8, workers))) + " -Djava.io.tmpdir=" + jtmp}
     if env:
         e.update(env)
     cmd = ["timeout", str(timeout), "tlc", "-workers", str(workers), "-metadir", meta, "-cleanup",
@@ -99,6 +101,7 @@ def run_tlc(module, cfg, wd, name, env=None, workers=1, timeout=900, mx="6g", ex
         r = sh(cmd, cwd=SPEC, env=e, stdout=f, timeout=timeout + 60)
     wall = time.time() - t
     shutil.rmtree(meta, ignore_errors=True)
+    shutil.rmtree(jtmp, ignore_errors=True)
     res = {"rc": r.returncode, "wall": wall, "out_path": outp, "fails": [], "done": None,
            "generated": 0, "distinct": 0, "prints": []}
     text = open(outp).read()
@@ -149,7 +152,7 @@ def validate_trace(module, trace, wd, name, timeout=1200, mx="6g", parallel=1, c
     for i, ln in enumerate(lines):
         cur.append(ln); size += len(ln)
         can_cut = (not cuts) or '"cut":true' in ln
-        if can_cut and ((size >= total / parallel and len(chunks) < parallel - 1) or len(cur) >= MAXB * 2 // 3):
+        if can_cut and ((size >= total / parallel and len(chunks) < parallel - 1) or len(cur) >= MAXB // 3):
             chunks.append((start, cur)); start = i + 1; cur = []; size = 0
     if cur:
         chunks.append((start, cur))
